@@ -179,6 +179,19 @@ macro_rules
       exact ginv_frame hG hth hI' rfl rfl rfl rfl rfl rfl (fun _ _ => rfl) rfl
         (by intro n; simp [hpc, plainAt, plainNode]) $t)
 
+/-- a failed inner `Pop` touches neither shared memory nor the ghost -/
+theorem ginv_popFail {s : State} {g : Ghost} {i : Nat} {th : Thread} {acc : Acc} (hG : GInv s g)
+    (hth : s.threads[i]? = some th) (hI' : Inv (s.popFail i th acc).1) :
+    GInv (s.popFail i th acc).1 g := by
+  unfold State.popFail at hI' ⊢
+  by_cases hsp : th.spin = true
+  · simp only [hsp, if_true] at hI' ⊢
+    exact ginv_frame hG hth hI' rfl rfl rfl rfl rfl rfl (fun _ _ => rfl) rfl
+      (by intro n; simp [plainAt, plainNode]) (by simp [GOk])
+  · simp only [hsp] at hI' ⊢
+    exact ginv_frame hG hth hI' rfl rfl rfl rfl rfl rfl (fun _ _ => rfl) rfl
+      (by intro n; simp [plainAt_finish]) (GOk_finish _ _ _ _)
+
 set_option maxHeartbeats 1000000 in
 theorem ginv_step {s : State} {g : Ghost} (hG : GInv s g) (i : Nat) :
     GInv (step .addThenStore s i).1 (gstep s g i) := by
@@ -215,10 +228,12 @@ theorem ginv_step {s : State} {g : Ghost} (hG : GInv s g) (i : Nat) :
       rw [hpc] at hI'; dsimp only at hI' ⊢
       split
       · rename_i hc; simp only [hc, if_true] at hI'
-        exact ginv_frame hG hth hI' rfl rfl rfl rfl rfl rfl (fun _ _ => rfl) rfl
-          (by intro n; simp [plainAt_finish]) (GOk_finish _ _ _ _)
+        exact ginv_popFail hG hth hI'
       · rename_i hc; simp only [hc, if_false] at hI'
         frame_same (by simp [GOk])
+    | popYield =>
+      rw [hpc] at hI'; dsimp only at hI' ⊢
+      frame_same (by simp [GOk])
     | popLoadNext h =>
       rw [hpc] at hI'; dsimp only at hI' ⊢
       frame_same (by simp [GOk])
@@ -424,8 +439,7 @@ theorem ginv_step {s : State} {g : Ghost} (hG : GInv s g) (i : Nat) :
             exact GOk_transfer (hG.locals j b hb) (fun _ _ h => h)
               (by simp only; rw [List.getElem?_set_ne (fun e' => e e'.symm)]) (fun _ _ => rfl)
       · simp only [if_neg hc] at hI' ⊢
-        exact ginv_frame hG hth hI' rfl rfl rfl rfl rfl rfl (fun _ _ => rfl) rfl
-          (by intro n; simp [plainAt_finish]) (GOk_finish _ _ _ _)
+        exact ginv_popFail hG hth hI'
 
 theorem ginv_init (vals : List Int) (progs : List (List Call)) :
     GInv (init vals progs) (ginit vals progs) := by
